@@ -933,6 +933,9 @@ def item_router(repo):
     mi = flat(block_after(r, r'fn insert\(\s*&mut self,\s*path: impl Into<String>,\s*val: RouteId,?\s*\)'))
     if mi != 'let path = path.into(); self.inner.insert(&path, val)?; let shared_path: Arc<str> = path.into(); self.route_id_to_path.insert(val, shared_path.clone()); self.path_to_route_id.insert(shared_path, val); Ok(())':
         raise ValueError('router: RouteMatcher::insert: ' + mi[:200])
+    rid = flat(block_after(r, r'impl\s+RouteId\s*\{'))
+    if rid != 'fn next() -> Self { use std::sync::atomic::{AtomicU32, Ordering}; static ID: AtomicU32 = AtomicU32::new(0); let id = ID.fetch_add(1, Ordering::Relaxed); if id == u32::MAX { panic!("Over `u32::MAX` routes created. If you need this, please file an issue."); } Self(id) }':
+        raise ValueError('router: RouteId::next (route ids must be unique process-wide): ' + rid[:160])
     rt = flat(strip_comments(read(repo, 'crates/anemo/src/routing/route.rs')))
     for piece in ['pub(super) fn new<T>(svc: T) -> Self where T: Service<Request<Bytes>, Response = Response<Bytes>, Error = Infallible> + Clone + Send + \'static, T::Future: Send + \'static, { Self(BoxCloneService::new(svc)) }',
                   'pub(crate) fn oneshot_inner( &self, req: Request<Bytes>, ) -> Oneshot<BoxCloneService<Request<Bytes>, Response<Bytes>, Infallible>, Request<Bytes>> { self.0.clone().oneshot(req) }',
@@ -995,6 +998,7 @@ def pin_targets(repo):
         ('dialing/handle_incoming_task', cmi, r'async\s+fn\s+handle_incoming_task\s*\([^)]*\)\s*->\s*ConnectingOutput'),
         ('dialing/add_peer', cmi, r'fn\s+add_peer\s*\(&mut self, new_connection: Connection\)'),
         ('dialing/handle_connect_request', cmi, r'fn\s+handle_connect_request\s*\(\s*&mut self,[^)]*\)'),
+        ('dialing/address_resolve', strip_comments(read(repo, 'crates/anemo/src/types/address.rs')), r'impl\s+Address'),
         ('dialing/known_peers_insert', block_after(cm, r'impl\s+KnownPeers\s*\{'), r'pub fn insert\s*\(&self, peer_info: PeerInfo\)\s*->\s*Option<PeerInfo>'),
         ('netapi/connect', nmi, r'async\s+fn\s+connect\s*\(&self, addr: Address, peer_id: Option<PeerId>\)\s*->\s*Result<PeerId>'),
         ('netapi/disconnect', nmi, r'fn\s+disconnect\s*\(&self, peer_id: PeerId\)\s*->\s*Result<\(\)>'),
